@@ -1,6 +1,6 @@
 """C12 - checkpoint at any step, restore into another instance, identical future."""
 from __future__ import annotations
-import os, random
+import os, random, re, subprocess
 from collections import Counter
 import concurrent.futures as cf
 import framework as F
@@ -10,29 +10,83 @@ ID = "C12"
 GEN = []
 LEVEL = "proof"
 TECHNIQUE = ("Coq: generic resume theorem (persistent + derived state, any prefix, any compatible target) instantiated for the "
-             "RecordTensor model (storage + write position), with refuted variants (no pointer, stale derived buffers); the "
-             "persistence map of the real classes is validated by save-at-k / load-into-a-used-instance / compare-futures runs")
+             "RecordTensor model (storage + write position), the fold-reducer machine of C07 (ten classes), the four synapse "
+             "models of C04 and the eight neuron models of C03 (state dictionary = finite map keyed by the real key names), with "
+             "refuted variants (no pointer, no _initial, no _count, stale derived buffers); the key sets of the models' state "
+             "dictionaries are compared with the real classes' state_dict() on every run, and the persistence map is validated by "
+             "save-at-k / load-into-a-used-instance / compare-futures runs")
 LEVEL_TEXT = ("Proof at the model level: for any component whose state is persistent+derived, a checkpoint taken after ANY prefix "
               "and loaded into ANY compatible target reproduces the whole future (resume_equiv); instantiated and proved for the "
-              "RecordTensor model (contents together with the write position; 'contents only' is refuted by a witness) and for the "
-              "derived-buffer pattern of the classifier (recomputed on load; 'stale buffers' refuted). That the REAL classes "
-              "persist exactly such a set is not proved but validated: real layers x neurons x synapses x delays x trainers x "
+              "RecordTensor model (contents together with the write position; 'contents only' is refuted by a witness), for the "
+              "derived-buffer pattern of the classifier (recomputed on load; 'stale buffers' refuted), and for the component models "
+              "of C07 / C04 / C03: load(save s) t = s for every reachable s and every target of the same configuration, hence "
+              "reducer_resume (all operations incl. views, clears, dt setter; ten class instances), synapse_resume (+ "
+              "synapse_resume_from_init without side conditions) and neuron_resume; a state dictionary lacking _initial, "
+              "CAReducer's _count or a synapse record's pointer is refuted by witnesses. That the REAL classes "
+              "persist exactly such a set is not proved but validated: the key set of each model's state dictionary (computed by "
+              "Coq from the model) must equal the real class's state_dict() key set (22 classes, fresh / stepped / cleared); real layers x neurons x synapses x delays x trainers x "
               "reducers x classifier are checkpointed through torch.save at every kind of step k, loaded (strict) into an "
               "instance with different parameters already run on other data, and every later output and the final state "
               "dictionary are compared bit-for-bit with the uninterrupted run.")
-LEVEL_NOTE = ("Trusted: Coq kernel; the hand-written instance (C01/Ring.v, tied by the C01 correspondence); the harness "
-              "tools/impl/c12_impl.py. Interpretation: a checkpoint taken before the first step (k=0) is loaded into a fresh "
+LEVEL_NOTE = ("Trusted: Coq kernel; the hand-written instances (C01/Ring.v, C07/Reducer.v, C04/Synapse.v, C03/Neuron.v, each tied "
+              "by its own property's correspondence check); the harness tools/impl/c12_impl.py. Not in any state dictionary and "
+              "therefore part of 'same configuration' in the theorems: constructor arguments, dt / inplace, the train/eval mode "
+              "of a neuron. Not modelled: layers, connections, trainers, monitors (covered by the resume runs only). Interpretation: a checkpoint taken before the first step (k=0) is loaded into a fresh "
               "target, later checkpoints into targets that have seen >=1 step (lazily shaped records must match). Known finding: "
               "pending (un-applied) accumulator parts are state-dict entries, so a checkpoint between trainer() and update() "
               "cannot be loaded into an instance holding a different number of pending parts.")
 IMPL = os.path.join(F.VERIF, "tools", "impl", "c12_impl.py")
-REDUCERS = ["NearestTraceReducer", "CumulativeTraceReducer", "PassthroughReducer", "EventReducer", "EMAReducer", "CAReducer"]
+REDUCERS = ["NearestTraceReducer", "CumulativeTraceReducer", "PassthroughReducer", "EventReducer", "EMAReducer", "CAReducer",
+            "ScaledNearestTraceReducer", "ScaledCumulativeTraceReducer", "ConditionalNearestTraceReducer",
+            "ConditionalCumulativeTraceReducer"]
+COMPONENTS = REDUCERS + c11.SYNAPSES + c11.NEURONS      # every class modelled in coq/C12/Components.v
+
+
+def coq_declared_fields():
+    """The persistent fields the Coq MODEL declares per class: Components.declared_fields, evaluated by Coq (these key lists
+    are proved to be the key sets of the model's `save`: red_save_keys / syn_save_keys / nrn_save_keys)."""
+    d = os.path.join(F.BUILD, ID)
+    os.makedirs(d, exist_ok=True)
+    p = os.path.join(d, "declared_fields.v")
+    with open(p, "w") as fh:
+        fh.write("From Coq Require Import List String.\nFrom Inferno Require Import Base.Num C12.Components.\n"
+                 "Set Printing Width 100000.\nEval vm_compute in (fun (M : Num) (x : T M) => declared_fields M x).\n")
+    r = subprocess.run(["timeout", "300", "coqc", "-Q", F.COQ, "Inferno", p], stdout=subprocess.PIPE, stderr=subprocess.PIPE,
+                       text=True, cwd=d)
+    for ext in ("", "o", "ok", "os"):
+        try:
+            os.remove(p + ext)
+        except OSError:
+            pass
+    if r.returncode != 0:
+        raise RuntimeError("coqc failed on declared_fields: " + r.stderr[-600:])
+    out, table, cur = r.stdout, {}, None
+    for m in re.finditer(r'"([^"]*)"%string', out):
+        if out[:m.start()].rstrip().endswith("("):      # ("ClassName"%string, key :: key :: nil)
+            cur = m.group(1)
+            table[cur] = []
+        elif cur is not None:
+            table[cur].append(m.group(1))
+    return table
+
+
+def impl_declared_fields():
+    """the table tools/impl/c12_impl.py compares the real state dicts with (parsed, not imported: that module needs torch)"""
+    import ast
+    src = open(IMPL).read()
+    tree = ast.parse(src)
+    env = {}
+    for node in tree.body:
+        if isinstance(node, ast.Assign) and len(node.targets) == 1 and isinstance(node.targets[0], ast.Name) \
+                and node.targets[0].id in ("_RED", "_REC", "_NRN", "DECLARED_FIELDS"):
+            exec(compile(ast.Module([node], []), IMPL, "exec"), env)
+    return {k: list(v) for k, v in env["DECLARED_FIELDS"].items()}
 
 
 def gen_cases(rng, n):
     cases = []
     for i in range(n):
-        kind = ["layer", "layer", "reducer", "reducer", "record", "classifier"][i % 6]
+        kind = ["layer", "layer", "reducer", "reducer", "record", "classifier", "synapse", "neuron"][i % 8]
         seed = rng.randrange(1 << 30)
         T = rng.randint(6, 14)
         k = rng.choice([0, 1, rng.randint(0, T), rng.randint(1, T), T])
@@ -71,7 +125,7 @@ def gen_cases(rng, n):
         elif kind == "reducer":
             dt = rng.choice([1.0, 0.5])
             kk = max(k, 1)
-            c = {"kind": "reducer", "spec": {"cls": REDUCERS[(i // 6) % len(REDUCERS)], "dt": dt,
+            c = {"kind": "reducer", "spec": {"cls": REDUCERS[(2 * (i // 8) + (i % 8 - 2)) % len(REDUCERS)], "dt": dt,
                                              "duration": rng.choice([0.0, dt, 3 * dt]),
                                              "inplace": rng.random() < 0.5},
                  "shape": rng.choice([[3], [2, 2]]), "T": T, "k": kk, "seed": seed, "prior": rng.randint(1, 5)}
@@ -83,6 +137,21 @@ def gen_cases(rng, n):
             elif r < 0.45 and kk >= 2:
                 c["src_clear_at"] = rng.randint(1, kk - 1)     # the source itself was cleared before the checkpoint
             cases.append(c)
+        elif kind in ("synapse", "neuron"):
+            # a bare component of coq/C12/Components.v; no lazily shaped state, so ANY k into ANY prior (incl. 0) is in scope
+            dt = rng.choice([1.0, 0.5, 1.3])
+            c = {"kind": kind, "cls": (c11.SYNAPSES if kind == "synapse" else c11.NEURONS)[(i // 8) % (4 if kind == "synapse" else 8)],
+                 "shape": rng.choice([[3], [2, 2]]), "B": rng.choice([1, 2]), "dt": dt, "T": T, "k": k, "seed": seed,
+                 "prior": rng.randint(0, 5)}
+            if kind == "synapse":
+                c["delay"] = rng.choice([0.0, 2 * dt, 3 * dt, 2.5 * dt])
+                c["inplace"] = rng.random() < 0.5
+            r = rng.random()
+            if r < 0.25:
+                c["target_cleared"] = True
+            elif r < 0.45:
+                c["clear_at"] = rng.randint(0, T - 1)
+            cases.append(c)
         elif kind == "record":
             cases.append({"kind": "record", "N": rng.randint(1, 6), "shape": rng.choice([[2], [2, 2]]), "T": T, "k": k,
                           "seed": seed, "prior": rng.randint(0, 5), "inplace": rng.random() < 0.5})
@@ -93,6 +162,8 @@ def gen_cases(rng, n):
 
 
 def signature(c, r):
+    if r.get("what") == "persistent_fields_differ":
+        return {"kind": "persistent_fields_differ", "cls": r.get("cls") or c.get("cls") or (c.get("spec") or {}).get("cls")}
     if r.get("what") == "load_failed" and c.get("schedule") == "every3" and ("_pos" in r.get("detail", "") or "_neg" in r.get("detail", "")):
         return {"kind": "pending_accumulator_parts"}
     return {"kind": r.get("what", "?"), "component": c["kind"]}
@@ -102,8 +173,20 @@ def run(ctx):
     rng = random.Random(ctx["seed"])
     n = 240 if ctx["tier"] == "quick" else 3000
     cases = gen_cases(rng, n)
+    # tie of the component models' persistent projection to the code: every modelled class, every run
+    cases = [{"kind": "fields", "cls": cls, "seed": rng.randrange(1 << 30), "delay": rng.choice([0.0, 2.0])} for cls in COMPONENTS] + cases
     # corpus: the known finding's witness always runs
     cases.insert(0, KNOWN_PENDING_CASE)
+    # the table the implementation side uses must be the one the Coq model declares
+    mism = []
+    try:
+        coq_tab, impl_tab = coq_declared_fields(), impl_declared_fields()
+        for cls in sorted(set(coq_tab) | set(impl_tab) | set(COMPONENTS)):
+            if set(coq_tab.get(cls, ["<absent>"])) != set(impl_tab.get(cls, ["<absent in table>"])) or cls not in COMPONENTS:
+                mism.append({"case": {"kind": "declared_fields", "cls": cls},
+                             "detail": f"Coq model declares {coq_tab.get(cls)}, tools/impl/c12_impl.py DECLARED_FIELDS has {impl_tab.get(cls)}"})
+    except Exception as e:  # noqa
+        mism.append({"case": {"kind": "declared_fields"}, "detail": f"{type(e).__name__}: {str(e)[:500]}"})
     k = 8
     shards = [cases[i::k] for i in range(k)]
     with cf.ThreadPoolExecutor(k) as ex:
@@ -114,7 +197,7 @@ def run(ctx):
             res[i + j * k] = r
     fails = [{"case": c, "detail": {a: b for a, b in r.items() if a != "trace"}, "signature": signature(c, r)}
              for c, r in zip(cases, res) if not r["ok"]]
-    dist = Counter(c["kind"] + ":" + (c.get("trainer") or (c.get("spec") or {}).get("cls", "")) for c in cases)
+    dist = Counter(c["kind"] + ":" + (c.get("trainer") or c.get("cls") or (c.get("spec") or {}).get("cls", "")) for c in cases)
     return {
         "evaluations": len(cases),
         "distinct_nontrivial": len({repr(c) for c, r in zip(cases, res) if r.get("events", 0) > 0}),
@@ -122,8 +205,8 @@ def run(ctx):
                 "checkpoint serialised with torch.save, loaded strictly into a differently initialised instance already run on other "
                 "data; non-trivial = the run produced spikes/observations",
         "samples": cases[1:3], "component_distribution": dict(dist),
-        "k_distribution": dict(Counter("k=0" if c["k"] == 0 else ("k=T" if c["k"] == c["T"] else "0<k<T") for c in cases)),
-        "mismatches": [], "oracle_failures": fails, "traces_validated_against_impl": len(cases) - len(fails),
+        "k_distribution": dict(Counter("k=0" if c["k"] == 0 else ("k=T" if c["k"] == c["T"] else "0<k<T") for c in cases if "k" in c)),
+        "mismatches": mism, "oracle_failures": fails, "classes_with_field_tie": len(COMPONENTS), "traces_validated_against_impl": len(cases) - len(fails),
     }
 
 
